@@ -6,6 +6,7 @@ package main
 import (
 	"fmt"
 	"go/ast"
+	"go/token"
 	"go/types"
 	"strings"
 )
@@ -35,6 +36,19 @@ func runC14(c *Ctx, r *Report) {
 				fmt.Sprintf("IPFSLog.lock of %s is acquired (%s, via %s) while IPFSLog.lock of %s is held (%s): two logs merging each other concurrently each hold their own lock and wait for the other's",
 					e.AcqBase, e.AcqMode, e.Via, e.HeldBase, e.HeldMode))
 		}
+	}
+	// recursive read acquisition of one log's lock: a writer queued between the two RLocks blocks both forever
+	r.Doc("R-C14.3", "no recursive acquisition of one IPFSLog lock (a merge from a log that is merely being appended to must terminate)")
+	nrec := 0
+	for _, e := range le.Edges {
+		if e.HeldClass == "IPFSLog.lock" && e.AcqClass == "IPFSLog.lock" && e.HeldBase == e.AcqBase {
+			nrec++
+			r.Violate("R-C14.3", r.Key("R-C14.3", e.Fn, "reacquire", strings.TrimPrefix(e.Via, "call ")), e.Pos,
+				fmt.Sprintf("IPFSLog.lock of %s is acquired again (%s, via %s) while already held (%s): with a writer waiting in between (an Append on that log) the second acquisition never succeeds", e.AcqBase, e.AcqMode, e.Via, e.HeldMode))
+		}
+	}
+	if nrec == 0 {
+		r.Hold("R-C14.3", r.Key("R-C14.3", nil, "no-recursive-log-lock", ""), token.NoPos, true, "no function re-acquires an IPFSLog lock it (or its caller) already holds")
 	}
 	// positive instances: calls on the other log made with no log lock held
 	otherParam := paramObj(join, 0)
